@@ -68,12 +68,13 @@ LockOrderRespected(e) ==
 RetOk(e) ==
     /\ e.st = "ok"                        \* no hang, abort or panic
     /\ e.canary                           \* nothing written outside the caller's buffer
+    /\ e.nul                              \* every C string field is NUL-terminated inside its array
     /\ vret[e.th].fn = e.fn
     /\ e.ret = vret[e.th].ret
     /\ OutMatches(e, vret[e.th])
     /\ RustAgrees(e)
     /\ LockOrderRespected(e)
-Why(e) == IF ~LockOrderRespected(e) THEN "lockorder" ELSE IF ~e.canary THEN "canary" ELSE IF e.ret # vret[e.th].ret THEN "ret"
+Why(e) == IF ~LockOrderRespected(e) THEN "lockorder" ELSE IF ~e.canary THEN "canary" ELSE IF ~e.nul THEN "nul" ELSE IF e.ret # vret[e.th].ret THEN "ret"
           ELSE IF ~OutMatches(e, vret[e.th]) THEN "out" ELSE IF ~RustAgrees(e) THEN "rust" ELSE "other"
 T_Ret ==
     /\ Ev.ev = "Ret" /\ tpend[Ev.th] /\ vpc[Ev.th] = "Idle"
